@@ -460,6 +460,7 @@ struct Rules {
     map_collect: Option<String>,
     fmt_display: bool,
     iter_find: Option<String>,
+    iter_max_by: Option<String>,
     for_ref_skip: bool,
     iter_mut_loop: bool,
     filter_map_collect: Option<String>,
@@ -637,6 +638,53 @@ impl<'a> VisitMut for RuleVisitor<'a> {
             if let Some(n) = repl {
                 *e = n;
                 self.applied.bump("E23-iter-find-as-early-stop-loop");
+            }
+        }
+        if let Some(item_ty) = &self.rules.iter_max_by {
+            // E29[=ItemType]: `X.iter().max_by(|PA, PB| BODY)` ==> `{ let mut __vx_best = None; for __vx_item in X.iter() { match __vx_best {
+            // None => { __vx_best = Some(__vx_item); } Some(__vx_cur) => { let PA = __vx_cur; let PB = __vx_item; match BODY { Ordering::Greater => {}
+            // _ => { __vx_best = Some(__vx_item); } } } } } __vx_best }` — std's `Iterator::max_by` is `reduce(|x, y| match compare(&x, &y) {
+            // Ordering::Greater => x, _ => y })`: the accumulated item is the closure's first argument, the new item its second, and the new item
+            // wins unless the accumulated one is strictly greater (so the last of several greatest items is returned). The closure's parameters are
+            // references to the iterator's items, which for a slice iterator are references themselves; binding the patterns to the items directly
+            // gives the same bindings (default binding modes see through both layers of reference).
+            let mut repl: Option<Expr> = None;
+            if let Expr::MethodCall(c2) = &*e {
+                if c2.method == "max_by" && c2.args.len() == 1 {
+                    if let (Expr::Closure(cl), Expr::MethodCall(c1)) = (&c2.args[0], &*c2.receiver) {
+                        if c1.method == "iter" && c1.args.is_empty() && cl.inputs.len() == 2 {
+                            let recv = &c1.receiver;
+                            let pa = match &cl.inputs[0] { syn::Pat::Type(pt) => (*pt.pat).clone(), other => other.clone() };
+                            let pb = match &cl.inputs[1] { syn::Pat::Type(pt) => (*pt.pat).clone(), other => other.clone() };
+                            let body = &cl.body;
+                            let decl: syn::Stmt = if item_ty.is_empty() { parse_quote!(let mut __vx_best = None;) } else {
+                                let t: syn::Type = syn::parse_str(item_ty).unwrap_or(parse_quote!(_));
+                                parse_quote!(let mut __vx_best: Option<#t> = None;)
+                            };
+                            repl = Some(parse_quote!({
+                                #decl
+                                for __vx_item in #recv.iter() {
+                                    match __vx_best {
+                                        None => { __vx_best = Some(__vx_item); }
+                                        Some(__vx_cur) => {
+                                            let #pa = __vx_cur;
+                                            let #pb = __vx_item;
+                                            match #body {
+                                                std::cmp::Ordering::Greater => {}
+                                                _ => { __vx_best = Some(__vx_item); }
+                                            }
+                                        }
+                                    }
+                                }
+                                __vx_best
+                            }));
+                        }
+                    }
+                }
+            }
+            if let Some(n) = repl {
+                *e = n;
+                self.applied.bump("E29-iter-max-by-as-loop");
             }
         }
         if self.rules.ctor_as_fn {
@@ -928,6 +976,24 @@ impl<'a> VisitMut for RuleVisitor<'a> {
                     }
                     self.applied.bump("E11-closure-wildcard-named");
                 }
+            }
+            // E30: a closure parameter that is a tuple / struct pattern (`|(tag, _)| B`) becomes a named parameter destructured by a `let` at the
+            // start of the body (`|__vx_p0| { let (tag, _) = __vx_p0; B }`): closure parameter patterns are irrefutable, so this is what the
+            // closure does (Verus accepts only variables as closure parameters)
+            let mut lets: Vec<syn::Stmt> = Vec::new();
+            for (k, p) in c.inputs.iter_mut().enumerate() {
+                let inner: &mut syn::Pat = match p { syn::Pat::Type(pt) => &mut *pt.pat, other => other };
+                if matches!(inner, syn::Pat::Tuple(_) | syn::Pat::TupleStruct(_) | syn::Pat::Struct(_)) {
+                    let id = format_ident!("__vx_p{}", k);
+                    let pat = inner.clone();
+                    lets.push(parse_quote!(let #pat = #id;));
+                    *inner = parse_quote!(#id);
+                    self.applied.bump("E30-closure-pattern-parameter-as-let");
+                }
+            }
+            if !lets.is_empty() {
+                let body = (*c.body).clone();
+                c.body = Box::new(parse_quote!({ #(#lets)* #body }));
             }
         }
     }
@@ -1520,6 +1586,7 @@ fn transform_fn(
         fmt_display: rule_list.iter().any(|r| r == "E25"),
         iter_find: rule_list.iter().find_map(|r| if r == "E23" { Some(String::new()) } else { r.strip_prefix("E23=").map(String::from) }),
         for_ref_skip: rule_list.iter().any(|r| r == "E22"),
+        iter_max_by: rule_list.iter().find_map(|r| if r == "E29" { Some(String::new()) } else { r.strip_prefix("E29=").map(String::from) }),
         iter_mut_loop: rule_list.iter().any(|r| r == "E28"),
         filter_map_collect: rule_list.iter().find_map(|r| if r == "E21" { Some(String::new()) } else { r.strip_prefix("E21=").map(String::from) }),
         fmt_concat: rule_list.iter().any(|r| r == "E20"),
